@@ -151,3 +151,77 @@ Proof.
   apply andb_true_iff in H. destruct H as [A _].
   apply zs_eqb_eq in A. subst vals. apply vals_of_sp_run_live.
 Qed.
+
+(* ------------------------------------------------------------------ the resolver's judgement *)
+Lemma insert_z_perm : forall l x, Permutation (insert_z x l) (x :: l).
+Proof.
+  induction l as [|a l IH]; intros x; cbn [insert_z]; [apply Permutation_refl|].
+  destruct (x <=? a); [apply Permutation_refl|].
+  eapply Permutation_trans; [apply perm_skip; apply IH|apply perm_swap].
+Qed.
+
+Lemma sort_z_perm : forall l, Permutation (sort_z l) l.
+Proof.
+  unfold sort_z. induction l as [|a l IH]; cbn [fold_right]; [apply perm_nil|].
+  eapply Permutation_trans; [apply insert_z_perm|apply perm_skip; exact IH].
+Qed.
+
+Lemma perm_b_sound : forall a b, perm_b a b = true -> Permutation a b.
+Proof.
+  intros a b H. unfold perm_b in H. apply zs_eqb_eq in H.
+  eapply Permutation_trans; [apply Permutation_sym; apply sort_z_perm|].
+  rewrite H. apply sort_z_perm.
+Qed.
+
+Lemma remove_one_perm : forall l x r, remove_one x l = Some r -> Permutation l (x :: r).
+Proof.
+  induction l as [|y l IH]; intros x r H; cbn [remove_one] in H; [discriminate|].
+  destruct (x =? y) eqn:E.
+  - apply Z.eqb_eq in E. inversion H; subst. apply Permutation_refl.
+  - destruct (remove_one x l) as [r'|] eqn:R; [|discriminate]. inversion H; subst.
+    eapply Permutation_trans; [apply perm_skip; apply (IH x r' R)|apply perm_swap].
+Qed.
+
+Lemma msub_perm : forall pub view r, msub view pub = Some r -> Permutation view (pub ++ r).
+Proof.
+  induction pub as [|x pub IH]; intros view r H; cbn [msub] in H.
+  - inversion H; subst. apply Permutation_refl.
+  - destruct (remove_one x view) as [v'|] eqn:R; [|discriminate].
+    eapply Permutation_trans; [apply (remove_one_perm _ _ _ R)|].
+    cbn [app]. apply perm_skip. apply IH. exact H.
+Qed.
+
+(* Check.pub_ok, the statement about a published address list with the property's own 32: a
+   permutation of the view when it has at most 32 values, else 32 of its values (a sub-multiset) *)
+Lemma pub_ok_sound : forall pub vals, pub_ok pub vals = true ->
+  (Z.of_nat (length vals) <= 32 -> Permutation pub vals) /\
+  (32 < Z.of_nat (length vals) -> Z.of_nat (length pub) = 32 /\ exists rest, Permutation vals (pub ++ rest)).
+Proof.
+  intros pub vals H. unfold pub_ok in H. destruct (Z.of_nat (length vals) <=? 32) eqn:E.
+  - apply Z.leb_le in E. split; [intros _; apply perm_b_sound; exact H | intros Hgt; lia].
+  - apply Z.leb_gt in E. split; [intros Hle; lia|]. intros _.
+    apply andb_true_iff in H. destruct H as [Hl Hm]. apply Z.eqb_eq in Hl. split; [exact Hl|].
+    destruct (msub vals pub) as [rest|] eqn:M; [|discriminate]. exists rest. apply msub_perm. exact M.
+Qed.
+
+(* with the truth [t] of the event history: what Check.prop_resolver accepts as the most recent
+   publication consists of registered values, and of all of them when there are at most 32 *)
+Lemma resolver_judgement_sound : forall pub t, NoDup (mkeys t) ->
+  pub_ok pub (vals_of t) = true ->
+  (forall a, In a pub -> registered t a) /\
+  (Z.of_nat (length (vals_of t)) <= 32 -> forall a, registered t a -> In a pub) /\
+  (32 < Z.of_nat (length (vals_of t)) -> Z.of_nat (length pub) = 32).
+Proof.
+  intros pub t N H. destruct (pub_ok_sound _ _ H) as [A B].
+  destruct (Z_le_gt_dec (Z.of_nat (length (vals_of t))) 32) as [Hle|Hgt].
+  - pose proof (A Hle) as P. split; [|split].
+    + intros a Ha. apply vals_of_registered; [exact N|]. eapply Permutation_in; [exact P|exact Ha].
+    + intros _ a Ha. eapply Permutation_in; [apply Permutation_sym; exact P|]. apply vals_of_registered; assumption.
+    + intros Hgt. lia.
+  - assert (Hgt' : 32 < Z.of_nat (length (vals_of t))) by lia.
+    destruct (B Hgt') as [Hl [rest P]]. split; [|split].
+    + intros a Ha. apply vals_of_registered; [exact N|].
+      eapply Permutation_in; [apply Permutation_sym; exact P|]. apply in_or_app. left. exact Ha.
+    + intros Hle. lia.
+    + intros _. exact Hl.
+Qed.
